@@ -257,6 +257,12 @@ _month = {
     "dec": 12,
 }
 
+# Strings that are compared without regard to case are folded here. The
+# command text is octets (latin-1 characters): only A-Z may be folded, octets
+# above 127 belong to whatever charset the client uses.
+#
+_ASCII_LOWER = {c: c + 32 for c in range(ord("A"), ord("Z") + 1)}
+
 # Lots of regular expressions.
 
 # search key token - search keys are one of a set of words - just alpha
@@ -889,7 +895,7 @@ class IMAPClientCommand:
         #
         if self._p_simple_string("charset", silent=True):
             self._p_simple_string(" ")
-            self.charset = self._p_astring().lower()
+            self.charset = self._p_astring().translate(_ASCII_LOWER)
             self._p_simple_string(" ")
         else:
             self.charset = "us-ascii"
@@ -1664,7 +1670,7 @@ class IMAPClientCommand:
     def _p_srchkey_bcc(self) -> IMAPSearch:
         self._p_simple_string(" ")
         return IMAPSearch(
-            "header", header="bcc", string=self._p_astring().lower()
+            "header", header="bcc", string=self._p_astring().translate(_ASCII_LOWER)
         )
 
     #######################################################################
@@ -1677,14 +1683,14 @@ class IMAPClientCommand:
     #
     def _p_srchkey_body(self) -> IMAPSearch:
         self._p_simple_string(" ")
-        return IMAPSearch("body", string=self._p_astring().lower())
+        return IMAPSearch("body", string=self._p_astring().translate(_ASCII_LOWER))
 
     #######################################################################
     #
     def _p_srchkey_cc(self) -> IMAPSearch:
         self._p_simple_string(" ")
         return IMAPSearch(
-            "header", header="cc", string=self._p_astring().lower()
+            "header", header="cc", string=self._p_astring().translate(_ASCII_LOWER)
         )
 
     #######################################################################
@@ -1707,17 +1713,17 @@ class IMAPClientCommand:
     def _p_srchkey_from(self) -> IMAPSearch:
         self._p_simple_string(" ")
         return IMAPSearch(
-            "header", header="from", string=self._p_astring().lower()
+            "header", header="from", string=self._p_astring().translate(_ASCII_LOWER)
         )
 
     #######################################################################
     #
     def _p_srchkey_header(self) -> IMAPSearch:
         self._p_simple_string(" ")
-        header_fld_name = self._p_astring().lower()
+        header_fld_name = self._p_astring().translate(_ASCII_LOWER)
         self._p_simple_string(" ")
         return IMAPSearch(
-            "header", header=header_fld_name, string=self._p_astring().lower()
+            "header", header=header_fld_name, string=self._p_astring().translate(_ASCII_LOWER)
         )
 
     #######################################################################
@@ -1811,21 +1817,21 @@ class IMAPClientCommand:
     def _p_srchkey_subject(self) -> IMAPSearch:
         self._p_simple_string(" ")
         return IMAPSearch(
-            "header", header="subject", string=self._p_astring().lower()
+            "header", header="subject", string=self._p_astring().translate(_ASCII_LOWER)
         )
 
     #######################################################################
     #
     def _p_srchkey_text(self) -> IMAPSearch:
         self._p_simple_string(" ")
-        return IMAPSearch("text", string=self._p_astring().lower())
+        return IMAPSearch("text", string=self._p_astring().translate(_ASCII_LOWER))
 
     #######################################################################
     #
     def _p_srchkey_to(self) -> IMAPSearch:
         self._p_simple_string(" ")
         return IMAPSearch(
-            "header", header="to", string=self._p_astring().lower()
+            "header", header="to", string=self._p_astring().translate(_ASCII_LOWER)
         )
 
     #######################################################################
